@@ -137,7 +137,7 @@ func main() {
 	only := flag.Int("only", -1, "child mode of -isolate: run only this case index and write it to <out>/only.json")
 	huge := flag.Int("huge", -1, "C15 child mode: run one huge-size scenario under an address-space limit and exit")
 	mmShape := flag.String("mmap-shape", "", "extract the shape of CSMatrix.Mmap / Merge from this Go source file into -out (a .v file)")
-	transl := flag.String("translate", "", "translate the float64 kernels (KBNSummer.Add/Sum) of this Go source file into Gallina, written to -out (a .v file)")
+	transl := flag.String("translate", "", "translate the float64 kernels (KBNSummer.Add/Sum, basic.Canonicalize) of the repository at this root into Gallina, written to -out (a .v file)")
 	skel := flag.String("skeleton", "", "extract the MulVec protocol skeleton from this Go source file into -out (a .v file)")
 	flag.Parse()
 	if *mmShape != "" {
